@@ -366,7 +366,10 @@ async fn run_scenario(sc: Value, run: std::path::PathBuf, panics: std::sync::Arc
 
     let mut peers: Vec<Peer> = sc["peers"].as_array().unwrap().iter().map(|p| {
         let mut id = [0u8; 20];
-        id.copy_from_slice(p["id"].as_str().unwrap().as_bytes());
+        match p["id_hex"].as_str() {
+            Some(h) => id.copy_from_slice(&unhex(h)),      // ids need not be text
+            None => id.copy_from_slice(p["id"].as_str().unwrap().as_bytes()),
+        }
         let mut has = vec![false; t.npieces];
         for x in p["has"].as_array().map(|v| v.clone()).unwrap_or_default() {
             has[x.as_u64().unwrap() as usize] = true;
